@@ -278,3 +278,25 @@ Proof.
   - right; exact H.
   - left. split; [congruence|reflexivity].
 Qed.
+
+(* ------------------------------------------------------------------ the locator on a freshly appended tag *)
+(* body does not contain anything the locator could take for a tag preamble *)
+Definition clean_tail (body : list Z) : bool := negb (has_marker body).
+
+Theorem locate_appended real body items :
+  clean_tail body = true -> forallb item_valid items = true -> tag_fits items = true ->
+  exists l, ape_locate real (body ++ ape_render_tag items) = Ok (Some l) /\
+            l_start l = zlen body /\ l_end l = zlen body + zlen (ape_render_tag items) /\ l_at_start l = false.
+Proof.
+  intros Hc Hv Hf. unfold clean_tail in Hc. apply negb_true_iff in Hc.
+  pose proof (wf_tagged body items Hc Hv Hf) as Hwf.
+  pose proof (locate_wf real _ _ Hwf (parse_rendered body items Hv Hf)) as H. cbn [ptag pbody ptrailer] in H.
+  destruct H as (l & Hl & Hat & H0 & H1 & H2 & Hb & Ht).
+  exists l. split; [exact Hl|]. rewrite zlen_app in H2.
+  pose proof (zlen_nonneg (ape_render_tag items)) as Nt.
+  assert (E1 : l_start l = zlen body).
+  { apply (f_equal zlen) in Hb. rewrite zlen_ztake in Hb by lia. rewrite zlen_app in Hb. lia. }
+  assert (E2 : l_end l = zlen body + zlen (ape_render_tag items)).
+  { apply (f_equal zlen) in Ht. rewrite zlen_zdrop in Ht by lia. rewrite zlen_app in Ht. unfold zlen at 1 in Ht. cbn [length] in Ht. lia. }
+  auto.
+Qed.
